@@ -211,14 +211,13 @@ def litTypeOf : TokenType → String
 
 /-- the constant-negative-index guard of the index postfix -/
 def negativeConstIndex : Expr → Bool
-  | .lit v "int" => match stoi? v with | some n => n < 0 | none => false
-  | .un "-" (.lit v "int") _ => match stoi? v with | some n => n > 0 | none => false
+  | .lit v "int" _ => match stoi? v with | some n => n < 0 | none => false
+  | .un "-" (.lit v "int" _) _ => match stoi? v with | some n => n > 0 | none => false
   | _ => false
 
 /-- the node's `line`/`column` -/
 def exprPos : Expr → P
-  | .lit _ _ => {}
-  | .null p | .var _ p | .bin _ _ _ p | .un _ _ p | .cast _ _ p | .postfix _ _ p | .call _ _ p
+  | .lit _ _ p | .null p | .var _ p | .bin _ _ _ p | .un _ _ p | .cast _ _ p | .postfix _ _ p | .call _ _ p
   | .member _ _ p | .new _ _ p | .this p | .super p | .index _ _ p | .arrLit _ p | .paren _ p
   | .measure _ p | .assign _ _ p | .memberAssign _ _ _ p | .arrAssign _ _ _ p => p
 
@@ -374,7 +373,7 @@ def parsePrimary (tb : Tables) (fuel : Nat) : PM Expr :=
     if (← checkAny [.IntegerLiteral, .LongLiteral, .FloatLiteral, .BitLiteral, .StringLiteral,
         .CharLiteral, .True, .False]) then
       let t ← advance
-      pure (.lit (tstr t) (litTypeOf t.type))
+      pure (.lit (tstr t) (litTypeOf t.type) (tpos t))
     else if (← check .Null) then
       let t ← advance
       pure (.null (tpos t))
